@@ -348,3 +348,37 @@ also10("C13", "Observer.Close/CloseEnd only set their switch (no lock, channel o
 also10("C15", "openStream's result is the request's own outcome: no class of refusal is turned into success.")
 also10("C19", "the ticker that paces the rounds is created with the configured interval and touched nowhere else; defaulting never rewrites the configured interval or timeout.")
 also10("C20", "channel closes are once by construction or confirmed; the observer's gate (run on the client library's read loop) waits for the persistence poll only.")
+
+
+def also11(pid, text):
+    t, x, r = CLAIMS[pid]
+    CLAIMS[pid] = (t, x + " ALSO DECIDED (tenth seeded round, feature interaction): " + text, r)
+
+also11("C01", "reading the stream changes nothing (the Stream getters store to no field, update no map, call no mutator — a scrape cannot take dirty marks away); Load refuses a checkpoint ahead of the vBucket whatever the bucket type.")
+also11("C03", "the catch-up filter is armed only by the completion of a rollback re-request; below 5.5.0 a stream that ends by itself does not wait for a close token.")
+also11("C05", "the file backend reads the file at every Load; every event wrapper carries the event's own sequence number as its offset; the Stream getters change no state.")
+also11("C07", "the observe callback hands on the node's result fields untouched, its error deciding.")
+also11("C08", "Observer.SetCatchup / SetVbUUID are called only from the completion of the client's stream requests; the end listener counts down only for final ends.")
+also11("C11", "AfterRebalanceStart is announced before the re-open is armed (also with a zero delay); the close stops the mitigation exactly when Open started it.")
+also11("C13", "a re-open attempt in flight at Close gives up instead of failing on (the re-open loop evaluated whole).")
+also11("C15", "no recovering middleware: every API route has its one handler, so a fatal failure behind a route stays fatal.")
+also11("C16", "the active-stream gauge counts one opener per assigned vBucket and follows every re-open; the stream getters behind a scrape change no state.")
+also11("C19", "the endpoint pickers of the Ping callback hand out an entry's address only after seeing its Error nil and its State PingStateOK.")
+also11("C20", "the same endpoint-picker rule: a refused or timed-out node never counts as an answer.")
+
+
+def also12(pid, text):
+    t, x, r = CLAIMS[pid]
+    CLAIMS[pid] = (t, x + " ALSO DECIDED (eleventh seeded round and mutation survey): " + text, r)
+
+also12("C02", "the existence flag the Couchbase backend reports starts out false and is raised only by a reader that found and decoded a document.")
+also12("C06", "the position writer never stores an offset below the tracked one, whatever the branch ids of the two.")
+also12("C09", "the membership listener is subscribed unconditionally on the start path; a membership that cannot be built is refused, not replaced.")
+also12("C10", "the elector callbacks evaluated whole (every lease notice reaches the handler, no memory of earlier notices); the index update is a compare-and-swap along the whole chain (monitor round → updateIndex → UpdateDocument → mutation options).")
+also12("C12", "below 5.5.0 the serial close asks every assigned vBucket and lowers its closing flag on every way out; the catch-up filter swallows nothing beyond the position reached; every offset any observer method builds carries the end bound.")
+also12("C14", "the position writer marks ⇔ stored ∧ dirty, whatever the checkpoint type.")
+also12("C15", "a selection's refusal is reached exactly when none of its tests holds and under nothing else (the polarity of a constructor's type test is decided).")
+also12("C17", "no slice or map of the configuration — or of what a config getter hands out — is passed to an in-place library mutator (sort, slices.Sort…, copy, clear, delete).")
+also12("C18", "the observer forwards the end of its stream ⇔ the end switch is not thrown — the token the serial close waits for.")
+also12("C13", "a background loop that runs on a flag is stopped under the configuration it was started under (every raise of the flag has a lowering under no further configuration test).")
+also12("C19", "the retry bound of a round is read where it is defined — a local constant or the literal of the parameter bundle at the round's only call site.")
